@@ -15,7 +15,7 @@ from lib.symx import SInt, explore, Abort
 from lib import harness as H
 
 PID = 'C20'
-DECISION_BOUND_FACTOR = 8     # a path may take at most 8*(mpi_size+4)+64 symbolic decisions (termination bound)
+DECISION_BOUND_FACTOR = 8     # a path may take at most 8*(mpi_size+M+4)+64 symbolic decisions (termination bound)
 
 
 def brute(max1, max2, size):
@@ -62,7 +62,7 @@ def work(item):
     if canary is not None:
         pg = H.mutant_module(pg, canary)
     t0 = time.time()
-    bound = DECISION_BOUND_FACTOR * (size + 4) + 64
+    bound = DECISION_BOUND_FACTOR * (size + M + 4) + 64        # both loops advance a counter bounded by min(mpi_size, max_proc1)
     reach = 0
     state = {}
 
@@ -238,7 +238,7 @@ def main():
             run.inconc('canary not detected: %s' % name)
     run.bounds = dict(mpi_size='1..%d' % P, max_proc='1..%d (both symbolic Int)' % M,
                       four_argument_entry='mpi_size 1..%d, npts 1..%d each (symbolic)' % (P4, M4),
-                      termination='<= %d*(mpi_size+4)+64 symbolic decisions per path' % DECISION_BOUND_FACTOR)
+                      termination='<= %d*(mpi_size+M+4)+64 symbolic decisions per path' % DECISION_BOUND_FACTOR)
     run.outside = ['maxima above %d, process counts above %d' % (M, P),
                    'IEEE rounding of the ratio comparison (ratios compared in exact rationals; each path is '
                    'additionally replayed once on the real float code and must return the same grid)']
